@@ -8,7 +8,7 @@ import numpy as np
 from .components import HEADER, k_, nl, zl
 from .coqrun import run_cases
 
-HDR = HEADER.replace("From HV Require Import Ord Select.", "From HV Require Import Ord Sprout Select.") + \
+HDR = HEADER.replace("From HV Require Import Ord Select.", "From HV Require Import Ord Sprout Select Far.") + \
     "Definition flat (c : cmap) : list Z := flat_map (fun pk => (Z.of_nat (fst pk) :: Z.of_nat (length (snd pk)) :: snd pk)) c.\n"
 
 
@@ -147,8 +147,19 @@ def run_direct(ctx, n, tag, pid="C10"):
             f = FarEnough(thr, 2) if kind == "far" else NBC_FarEnough(thr, 2, only_active)
             out = f(cands, tree)
             for d in cands:
-                sibs = [s for s in tree.levels[d.level + 1] if s.is_active or (kind == "nbcfar" and not only_active)]
+                below = list(tree.levels[d.level + 1])
+                sibs = [s for s in below if s.is_active or (kind == "nbcfar" and not only_active)]
                 t = thr if kind == "far" else thr * cands[d].features.nbc_mean_distance
+                # model: distance keys as numpy computes them, threshold key, the whole level below with its activity flags
+                if before[d] and below:
+                    M = "[" + "; ".join(zl([k_(np.linalg.norm(i.genome - s.centroid, ord=2)) for s in below]) for i in before[d]) + "]"
+                    acts = "[" + "; ".join("true" if s.is_active else "false" for s in below) + "]"
+                    oa = "true" if (kind == "far" or only_active) else "false"
+                    tk = k_(t)
+                    terms.append(f"map Z.of_nat (far_filter (fun c s => nth s (nth c {M} []) 0) (fun s => nth s {acts} false) {oa} {('(%d)' % tk) if tk < 0 else tk} "
+                                 f"(seq 0 {len(below)}) (seq 0 {len(before[d])}))")
+                    impls.append([j for j, i in enumerate(before[d]) if any(i is k for k in out[d].individuals)])
+                    metas.append(dict(meta, deme=d.id, thr=t))
                 for i in before[d]:
                     far = all(np.linalg.norm(i.genome - s.centroid) > t for s in sibs)
                     inn = any(i is k for k in out[d].individuals)
@@ -182,4 +193,4 @@ def run_direct(ctx, n, tag, pid="C10"):
             if im != mo:
                 disagreements.append({"what": f"{me['kind']} filter (maximize={me['mx']}): implementation {im} model {mo}", "case": me})
     return {"violations": [dict(v, replay_fn="direct") for v in viol], "disagreements": disagreements[:10], "evaluations": n, "distinct_nontrivial": len({str(m) for m in metas}),
-            "validated": len(terms) if model is not None else 0, "distribution": dist, "samples": metas[:2]}
+            "validated": len(terms) if model is not None else 0, "far_cases": sum(1 for m in metas if m["kind"] in ("far", "nbcfar")), "distribution": dist, "samples": metas[:2]}
